@@ -426,9 +426,31 @@ func udpSegmentation(tier string, seed uint64, res *Result) error {
 							capped = append(capped, p)
 						}
 						parts = capped
-						for _, p := range parts {
+						// UDP may drop datagrams when hundreds arrive in one burst (the property is not
+						// about loss): at most 48 datagrams per reply, neighbours coalesced beyond that
+						for len(parts) > 48 {
+							var merged [][]byte
+							for i := 0; i < len(parts); i += 2 {
+								if i+1 < len(parts) && len(parts[i])+len(parts[i+1]) <= 260 {
+									merged = append(merged, append(append([]byte(nil), parts[i]...), parts[i+1]...))
+								} else {
+									merged = append(merged, parts[i])
+									if i+1 < len(parts) {
+										merged = append(merged, parts[i+1])
+									}
+								}
+							}
+							if len(merged) == len(parts) {
+								break
+							}
+							parts = merged
+						}
+						for i, p := range parts {
 							if len(p) > 0 {
 								peer.WriteToUDP(p, from)
+							}
+							if i%8 == 7 {
+								time.Sleep(200 * time.Microsecond)
 							}
 						}
 						done <- fmt.Sprint(lens(parts))
